@@ -148,6 +148,37 @@ pub fn run(ctx: &Ctx, rep: &mut Reporter) -> Json {
                     panic_violation(rep, case_idx, "panic", &p, Json::obj());
                 }
             }
+            // the same content under other line-ending conventions (a text-mode conversion
+            // applied once, applied to its own output, old-Mac CR, LF CR): each is its own file
+            {
+                let r = guarded(|| {
+                    let once = check_one(&base, "single copy", rep, case_idx, &mut log);
+                    let rep_nl = |nl: &[u8]| -> Vec<u8> {
+                        let mut o = Vec::with_capacity(base.len() + base.len() / 8);
+                        for b in base.iter() {
+                            if *b == b'\n' {
+                                o.extend_from_slice(nl);
+                            } else if *b != b'\r' {
+                                o.push(*b);
+                            }
+                        }
+                        o
+                    };
+                    let mut seen = vec![once];
+                    for nl in [&b"\r\n"[..], b"\r\r\n", b"\r", b"\n\r", b"\r\r\r\n"] {
+                        let v = rep_nl(nl);
+                        let u = check_one(&v, "other line-ending convention", rep, case_idx, &mut log);
+                        rep.count("inputs_under_other_line_ending_conventions", 1);
+                        if base.contains(&b'\n') && seen.contains(&u) {
+                            rep.violation(case_idx, "uuid-oracle", "two files that differ only in their line-ending convention have the same UUID", Json::obj());
+                        }
+                        seen.push(u);
+                    }
+                });
+                if let Err(p) = r {
+                    panic_violation(rep, case_idx, "panic", &p, Json::obj());
+                }
+            }
             // buffers read in whole blocks: the file followed by the fill of its last 512-byte
             // or 4096-byte block (NUL, blank, ^Z) — the identifier covers the fill
             {
